@@ -3,7 +3,7 @@ use std::{
     collections::hash_map,
     ops::Deref,
     result::Result as StdResult,
-    sync::{Arc, Mutex, MutexGuard},
+    sync::{Arc, MutexGuard},
 };
 
 use salsa::{Database, OwnedDb};
@@ -141,6 +141,29 @@ pub struct CompilerDatabase {
     // This is only set after calling snapshot on `Import`. `Import` itself can't contain a
     // `RootedThread` as that would create a cycle
     pub(crate) thread: Option<RootedThread>,
+    #[cfg(gluon_verif)]
+    verif_snapshot: VerifSnapshot,
+}
+
+/// Reports the lifetime of a database snapshot to a schedule explorer (verification hook)
+#[cfg(gluon_verif)]
+struct VerifSnapshot(bool);
+
+#[cfg(gluon_verif)]
+impl VerifSnapshot {
+    fn taken() -> Self {
+        crate::vm::verif::snapshot_event(1);
+        VerifSnapshot(true)
+    }
+}
+
+#[cfg(gluon_verif)]
+impl Drop for VerifSnapshot {
+    fn drop(&mut self) {
+        if self.0 {
+            crate::vm::verif::snapshot_event(-1);
+        }
+    }
 }
 
 impl CompilerDatabase {
@@ -149,6 +172,8 @@ impl CompilerDatabase {
             storage: self.storage.snapshot(),
             state: self.state.clone(),
             thread: Some(thread),
+            #[cfg(gluon_verif)]
+            verif_snapshot: VerifSnapshot::taken(),
         })
     }
 
@@ -157,6 +182,8 @@ impl CompilerDatabase {
             storage: self.storage.fork(state),
             state: self.state.clone(),
             thread: Some(thread),
+            #[cfg(gluon_verif)]
+            verif_snapshot: VerifSnapshot::taken(),
         })
     }
 }
@@ -203,6 +230,8 @@ impl crate::query::CompilationBase for CompilerDatabase {
                     let entry_contents = Arc::make_mut(entry).to_mut();
                     entry_contents.clear();
                     entry_contents.push_str(contents);
+                    #[cfg(gluon_verif)]
+                    crate::vm::verif::db_write_point(self as *const Self as usize);
                     ModuleTextQuery
                         .in_db_mut(self as &mut dyn Compilation)
                         .invalidate(&module);
@@ -284,6 +313,8 @@ impl CompilerDatabase {
             state: Default::default(),
             storage: Default::default(),
             thread,
+            #[cfg(gluon_verif)]
+            verif_snapshot: VerifSnapshot(false),
         };
         compiler.set_compiler_settings(Default::default());
         compiler
@@ -1149,3 +1180,9 @@ impl CompilerDatabase {
         env(self)
     }
 }
+
+// The locks are the ones of `std` unless the build is instrumented for schedule exploration
+#[cfg(not(gluon_verif))]
+use std::sync::{Mutex};
+#[cfg(gluon_verif)]
+use crate::vm::verif::sync::{Mutex};
